@@ -10,6 +10,11 @@
 
 void cg_put_u64(uint64_t v);
 void cg_put_bytes(const void *p, size_t n);
+/* 1 if [p, p + count*size) lies inside a live guest allocation (or count == 0); otherwise records
+   an "invalid pointer" observation in place of the value and returns 0 */
+int cg_check_range(const void *p, size_t count, size_t size);
+/* read a bool's representation without a bool-typed load */
+#define CG_BOOL(x) (*(const uint8_t *)&(x))
 uint64_t cg_get_u64(void);
 void cg_get_bytes(void *dst, size_t n);
 int cg_event(uint32_t kind, uint32_t idx);
